@@ -6,4 +6,7 @@ export CARGO_NET_OFFLINE=true
 (cd harness && cargo build --offline 2>&1 | tail -2)
 (cd harness && cargo build --offline --release 2>&1 | tail -2)
 (cd lean && lake build 2>&1 | tail -3)
+# the property modules (theorems): built here once so that the checks only re-check what a
+# change to /repo's tables invalidates; a module that fails to build is reported by its check
+(cd lean && lake build $(ls Anything/Props/*.lean | sed 's|/|.|g; s|\.lean$||') 2>&1 | tail -3) || true
 echo "setup done"
